@@ -423,4 +423,89 @@ theorem safe_of {cfg : Cfg} {w : World P} (h1 : WInv P core cfg w) (h2 : HInv P 
   · exact fun hr => h2.1.2 (readyCount_pos_of_mem hr)
   · exact fun hr => h2.2.2 (readyCount_pos_of_mem hr)
 
+/-! ## local invariants: a predicate on connection objects and one on datagrams -/
+
+/-- every call keeps `S` and emits only `K`-datagrams; so does every delivery of a `K`-datagram -/
+structure Loc (P : Proto) (S : P.Conn → Prop) (K : P.Packet → Prop) : Prop where
+  init : S P.init
+  call : ∀ (now : Nat) (draws : List Nat) (c : P.Conn) (cl : Call) (r : Ret P.Conn P.Packet),
+    P.call now draws c cl = .ok r → S c → S r.conn ∧ ∀ p ∈ r.sent, K p
+  recv : ∀ (now : Nat) (draws : List Nat) (c : P.Conn) (p : P.Packet) (alt : P.Alt) (r : Ret P.Conn P.Packet),
+    P.recv now draws c p alt = .ok r → S c → K p → S r.conn ∧ ∀ p' ∈ r.sent, K p'
+
+def LInv {P : Proto} (S : P.Conn → Prop) (K : P.Packet → Prop) (w : World P) : Prop :=
+  (S w.a.conn ∧ ∀ dg ∈ w.a.out, K dg.pkt) ∧ (S w.b.conn ∧ ∀ dg ∈ w.b.out, K dg.pkt)
+
+theorem LInv.side {S : P.Conn → Prop} {K : P.Packet → Prop} {w : World P} (h : LInv S K w) (s : Side) :
+    S (w.get s).conn ∧ ∀ dg ∈ (w.get s).out, K dg.pkt := by
+  cases s
+  · exact h.1
+  · exact h.2
+
+theorem book_loc {S : P.Conn → Prop} {K : P.Packet → Prop} {e : End P} {r : Ret P.Conn P.Packet}
+    (he : ∀ dg ∈ e.out, K dg.pkt) (hs : S r.conn) (hk : ∀ p ∈ r.sent, K p) (sub : List (Bytes × Bool)) :
+    S (e.book r sub).conn ∧ ∀ dg ∈ (e.book r sub).out, K dg.pkt := by
+  refine ⟨hs, ?_⟩
+  intro dg hdg
+  simp only [End.book] at hdg
+  rcases List.mem_append.mp hdg with hdg | hdg
+  · exact he dg hdg
+  · simp only [List.mem_map] at hdg
+    obtain ⟨p, hp, rfl⟩ := hdg
+    exact hk p hp
+
+theorem step_loc {S : P.Conn → Prop} {K : P.Packet → Prop} (hl : Loc P S K) {w w' : World P}
+    (h : LInv S K w) (m : Move P) (he : step w m = some w') : LInv S K w' := by
+  cases m with
+  | advance dt =>
+    simp only [step] at he
+    injection he with he; subst he; exact h
+  | call s draws c =>
+    simp only [step] at he
+    cases hr : P.call w.now draws (w.get s).conn c with
+    | error e => rw [hr] at he; cases he
+    | ok r =>
+      rw [hr] at he
+      injection he with he
+      subst he
+      obtain ⟨a, b⟩ := hl.call _ _ _ _ _ hr (h.side s).1
+      have := book_loc (h.side s).2 a b
+      cases s with
+      | a => exact ⟨this _, h.2⟩
+      | b => exact ⟨h.1, this _⟩
+  | deliver to i draws alt =>
+    simp only [step] at he
+    cases hdg : (w.get to.other).out[i]? with
+    | none => rw [hdg] at he; cases he
+    | some dg =>
+      rw [hdg] at he
+      simp only at he
+      cases hr : P.recv w.now draws (w.get to).conn dg.pkt alt with
+      | error e => rw [hr] at he; cases he
+      | ok r =>
+        rw [hr] at he
+        injection he with he
+        subst he
+        have hk := (h.side to.other).2 dg (List.mem_of_getElem? hdg)
+        obtain ⟨a, b⟩ := hl.recv _ _ _ _ _ _ hr (h.side to).1 hk
+        have := book_loc (h.side to).2 a b
+        cases to with
+        | a => exact ⟨this _, h.2⟩
+        | b => exact ⟨h.1, this _⟩
+
+theorem run_loc {S : P.Conn → Prop} {K : P.Packet → Prop} (hl : Loc P S K) :
+    ∀ (ms : List (Move P)) (w w' : World P), LInv S K w → run w ms = some w' → LInv S K w' := by
+  intro ms
+  induction ms with
+  | nil => intro w w' h he; simp [run] at he; subst he; exact h
+  | cons m ms ih =>
+    intro w w' h he
+    simp only [run] at he
+    cases hst : step w m with
+    | none => rw [hst] at he; cases he
+    | some w1 => rw [hst] at he; exact ih w1 w' (step_loc hl h m hst) he
+
+theorem init_loc {S : P.Conn → Prop} {K : P.Packet → Prop} (hl : Loc P S K) : LInv S K (World.init P) :=
+  ⟨⟨hl.init, by intro dg h; simp [World.init] at h⟩, ⟨hl.init, by intro dg h; simp [World.init] at h⟩⟩
+
 end Tw.NetSim
